@@ -348,6 +348,30 @@ def sweep_cases():
     return out
 
 
+def upgrade_cases():
+    """expired-entry readers racing a writer: every read of memory.Storage (GetHash / GetAllHash / GetExpiration have a
+    second, write-locked section that evicts what they found expired; Get / Exists / GetList are one section) x every
+    writer that revives, refreshes or removes the key x the type of the expired value.  The harness parks the reader in
+    RLock and the writer in Lock behind its own write lock and releases: the writer lands between the reader's sections."""
+    k = "k0"
+    setups = {
+        "hash": [{"op": "sethash", "k": k, "f": "f", "v": "old"}, {"op": "setexp", "k": k, "ttl": 2}],
+        "string": [{"op": "set", "k": k, "v": "old", "ttl": 2}],
+        "list": [{"op": "setlist", "k": k, "v": ["old"], "ttl": 2}],
+        "counter": [{"op": "incrby", "k": k, "n": 40}, {"op": "setexp", "k": k, "ttl": 2}],
+    }
+    readers = [{"op": "gethash", "k": k, "f": "f"}, {"op": "getallhash", "k": k}, {"op": "getexp", "k": k},
+               {"op": "get", "k": k}, {"op": "exists", "k": k}, {"op": "getlist", "k": k}]
+    writers = [{"op": "set", "k": k, "v": "new", "ttl": 0}, {"op": "setnx", "k": k, "v": "new", "ttl": 0},
+               {"op": "setlist", "k": k, "v": ["n"], "ttl": 0}, {"op": "append", "k": k, "v": "n"},
+               {"op": "sethash", "k": k, "f": "f", "v": "new"}, {"op": "incrby", "k": k, "n": 3},
+               {"op": "setexp", "k": k, "ttl": LONG}, {"op": "cas", "k": k, "old": None, "v": "new", "ttl": 0}, {"op": "del", "k": k}]
+    reads = [{"op": "exists", "k": k}, {"op": "get", "k": k}, {"op": "gethash", "k": k, "f": "f"}, {"op": "getlist", "k": k},
+             {"op": "getexp", "k": k}]
+    return [{"mode": "upgrade", "setup": su, "ops": [r, w] + reads, "planted": name}
+            for name, su in setups.items() for r in readers for w in writers]
+
+
 def exhaustive_small(rng, depth):
     """all histories of the given length over a reduced one-key alphabet (thorough tier)"""
     k = "k0"
@@ -568,8 +592,9 @@ def run(ctx, only_cases=None):
         cas_ok = flags["v_cas_zero_guard"] and flags["v_cas_ttl0_never"]
         cases += [gen_conc(rng, race_ok is True, cas_ok) for _ in range(n_conc)]
         cases += sweep_cases()
+        cases += upgrade_cases()
     timed = [c for c in cases if c["mode"] in ("mem", "redis", "both")]
-    conc = [c for c in cases if c["mode"] in ("conc", "sweep")]
+    conc = [c for c in cases if c["mode"] in ("conc", "sweep", "upgrade")]
     env = {"VERIF_C13_PAR": "64" if thorough else "40"}
     outs = vlib.run_harness(binary, timed, timeout=1500, env=env) if timed else []
     try:
@@ -608,6 +633,16 @@ def run(ctx, only_cases=None):
             if o["prop_ok"]:   # either order of {CleanupExpired || write} is the same Spec history up to commuting
                 ops = [{"op": "set", "k": c["ops"][0]["k"], "v": "old", "ttl": SHORT}, {"op": "tick", "d": TICK}, {"op": "cleanup"}] + c["ops"]
                 terms.append(case_value(1, flags, 10 ** 12, ops, [["ok"], ["ok"], ["ok"]] + o["obs"]))
+                tags.append(("lin", idx))
+            continue
+        if c["mode"] == "upgrade":
+            if o["prop_ok"]:   # the sequential order the harness accepted, replayed through the Spec
+                pre = [["i", x["n"]] if x["op"] == "incrby" else ["ok"] for x in c["setup"]] + [["ok"]]
+                two, obs2 = c["ops"][:2], o["obs"][:2]
+                if o["order"] == "wr":
+                    two, obs2 = two[::-1], obs2[::-1]
+                terms.append(case_value(1, flags, 10 ** 12, c["setup"] + [{"op": "tick", "d": 1000}] + two + c["ops"][2:],
+                                        pre + obs2 + o["obs"][2:]))
                 tags.append(("lin", idx))
             continue
         if o["prop_ok"]:
@@ -694,7 +729,7 @@ def run(ctx, only_cases=None):
 
     # ---- coverage ----
     def nontrivial(c, o):
-        if c["mode"] in ("conc", "sweep"):
+        if c["mode"] in ("conc", "sweep", "upgrade"):
             return o.get("overlap", 0) > 0
         kinds = {x["op"] for x in c["ops"]}
         answers = {json.dumps(x[:1]) for x in o["obs"]}
@@ -740,6 +775,9 @@ def run(ctx, only_cases=None):
             "concurrent_cases": sum(1 for c in conc if c["mode"] == "conc"),
             "cleanup_sweep_cases": sum(1 for c in conc if c["mode"] == "sweep"),
             "cleanup_sweep_cases_write_issued_while_sweep_held_the_mutex": sum(1 for c, o in zip(conc, couts) if c["mode"] == "sweep" and o.get("overlap")),
+            "reader_upgrade_vs_writer_cases": sum(1 for c in conc if c["mode"] == "upgrade"),
+            "reader_upgrade_vs_writer_cases_both_parked_on_the_mutex": sum(1 for c, o in zip(conc, couts) if c["mode"] == "upgrade" and o.get("overlap")),
+            "reader_upgrade_vs_writer_explained_by_order": {k: sum(1 for c, o in zip(conc, couts) if c["mode"] == "upgrade" and o.get("order") == k) for k in ("rw", "wr")},
             "concurrent_cases_with_overlap": sum(1 for c, o in zip(conc, couts) if c["mode"] == "conc" and o.get("overlap", 0) > 0),
             "operations": opcount, "lifetimes_ms": ttlcount, "tick_ms": TICK,
             "reads_answered_not_found_by_reference": expired_reads,
